@@ -2,6 +2,9 @@
 //! please ref the doc from std::sync::condvar
 use crossbeam::queue::SegQueue;
 
+#[cfg(may_verif)]
+use crate::verif::atomic::{AtomicUsize, Ordering};
+#[cfg(not(may_verif))]
 use std::sync::atomic::{AtomicUsize, Ordering};
 use std::sync::Arc;
 use std::sync::{LockResult, PoisonError};
